@@ -1,6 +1,7 @@
 import Std.Data.HashMap
 import TsVerif.Common.IO
 import TsVerif.C12.Judge
+import TsVerif.C12.Shape
 /-!
 Driver for C12.  Input: `thr <lang> <size> <lexed_ppm> <bytes_ppm> <fresh_ppm> <freshvis_ppm>` lines, then cases
 (measurements of the real runtime + dumps before the edit / after `ts_tree_edit` / after the
@@ -57,7 +58,22 @@ def runCase (s : St) : String × Option Measured :=
           else if noCol t && r > reach then s!"FAIL {r} marked nodes but only {reach} nodes reach the edit"
           else if reach > bound then s!"FAIL {reach} reaching nodes exceed the proved bound {bound}"
           else "ok"
-        (s!"tiles={if tiles t then 1 else 0} height={h} max_la={maxLa t} zero_width={zerosTotal t h} reach={reach} bound={bound}", msg)
+        -- `edit_candidates_total_bound` (Round11b) decided on the real dumps: premises on the tree
+        -- before the edit, counts on the real output of `ts_tree_edit`
+        let prem := clean t && noCol t && tiles t && decide (s.start ≤ s.oldEnd)
+        let tipsB := w + maxLa t + 2 + zeros t
+        let cDesc := desc ed.root
+        let cTips := tips ed.root
+        let cFront := front ed.root
+        let candB := 1 + tipsB * (h + 1) * maxFan t
+        let msg :=
+          if msg != "ok" then msg
+          else if prem && cTips > tipsB then s!"FAIL {cTips} marked paths exceed the proved bound {tipsB} (tips_bound)"
+          else if prem && cDesc > tipsB * (h + 1) then s!"FAIL {cDesc} descended marked nodes exceed the proved bound {tipsB * (h + 1)}"
+          else if prem && cFront > candB then s!"FAIL {cFront} reuse candidates exceed the proved bound {candB}"
+          else if height ed.root != h || maxFan ed.root != maxFan t then "FAIL ts_tree_edit changed the shape of the tree (edit_shape)"
+          else "ok"
+        (s!"tiles={if tiles t then 1 else 0} height={h} max_la={maxLa t} zero_width={zerosTotal t h} reach={reach} bound={bound} cand_prem={if prem then 1 else 0} desc={cDesc} tips={cTips} cand={cFront} tips_bound={tipsB} cand_bound={candB} fanout={maxFan t}", msg)
       | none => ("tiles=- reach=- bound=-", "skipped")
     -- `reparse_work_bound_partial` on the real re-parse: uncovered nodes of the NEW tree vs the bound
     let work := if s.size ≤ 20000 then
